@@ -418,15 +418,17 @@ def do_free(ctx, inst, reps):
             ctx.traces += len(res) - len(hung)
         else:
             ev = v.get("event")
-            mine = (ctx.pid in tags_of(ev)) or not tags_of(ev) or v.get("invariant")
+            mine = (ctx.pid in tags_of(ev)) or not tags_of(ev) or v.get("invariant") or \
+                str(v.get("label_invariant", "")).startswith(ctx.pid)
             art = save_artifact(ctx, "free_%s" % inst["name"],
                                 {"kind": "free-run trace rejected", "instance": inst["name"], "run": v.get("run"),
                                  "event": ev, "invariant": v.get("invariant"), "config": instances.harness_config(inst),
                                  "recorded": recorded_run(tr, v.get("run")),
                                  "runs": [{"id": v.get("run"), "prog": progs[v["run"]] if isinstance(v.get("run"), int) else None}]})
             if mine:
-                ctx.violations.append(("recorded execution of %s cannot be explained by the specification at event %s"
-                                       % (inst["name"], json.dumps(ev)[:300]), art))
+                ctx.violations.append(("recorded execution of %s %s at event %s"
+                                       % (inst["name"], ("violates " + v["label_invariant"]) if v.get("label_invariant")
+                                          else "cannot be explained by the specification", json.dumps(ev)[:300]), art))
             else:
                 ctx.notes.append("trace of %s rejected at an event of %s" % (inst["name"], sorted(tags_of(ev))))
         if hung:
